@@ -1,4 +1,6 @@
 """C04 — emitted DirectX HLSL is accepted by the front end and is a fixpoint."""
+# streams of `harness c04`: C04.fix (whole-program byte fixpoint: decl / gen / lit / disk / text), C04.reelab (second IR
+# against the elaboration model), C04.names (name resolution of the emitted paths against Model.FixpointNames)
 import os
 import subprocess
 
@@ -41,8 +43,15 @@ def custom(ctx):
     ctx.correspond(cases)
     ctx.extra["model_comparison"] = ("C04.reelab: the model predicts the second-generation IR skeleton of every expression "
                                      "position (erase, unelab, elabTop, conversion) and is compared with what the real front end "
-                                     "makes of the real emitted text; C04.fix (whole-program byte fixpoint and slots) has no "
-                                     "model side, it is the property's own oracle (the model answers `unsupported`)")
+                                     "makes of the real emitted text; C04.names: the model (its own scope table, find_identifier "
+                                     "with the full-path retry on every enclosing scope, the emitted root-relative paths, the "
+                                     "exported program without typedefs and empty namespace blocks) predicts which entity every "
+                                     "use refers to in the first generation and in the text the compiler emits for that text, "
+                                     "`g2:reject` when an emitted path finds nothing, `g1:reject` for a source path that finds "
+                                     "nothing, the end_enum panic; compared with what the two real texts say (ids carried as "
+                                     "constants); when an emitted path finds an entity of another kind the model abstains "
+                                     "(`unsupported`: the type checker decides). C04.fix (whole-program byte fixpoint and "
+                                     "slots) has no model side, it is the property's own oracle (the model answers `unsupported`)")
 
 
 def _harness_exe():
@@ -254,7 +263,18 @@ SPEC = {
             "the second generation must be accepted, byte-identical and keep every binding slot. C04.reelab: scalar programs of "
             "C01's generator + fixed sources; real first IR -> real emitted text -> real front end again; the model predicts the "
             "skeleton (constant kinds, casts, operators, call targets, names) of every expression position of the second IR; oracle = "
-            "accepted and byte-identical second text; non-trivial = the source was accepted",
+            "accepted and byte-identical second text; non-trivial = the source was accepted. C04.names: descriptor programs "
+            "along the name-resolution dimensions - namespaces (nested to depth 3, reopened, reusing the names of enclosing / root "
+            "namespaces and of enums, structs, functions, globals: six pool names + fresh ones), enums (scoped E::V and unscoped V "
+            "uses, enum named like its namespace), structs with a method whose body uses names, typedefs of qualified struct / enum "
+            "types, functions with parameters named like namespaces / globals, locals and nested blocks shadowing namespace members, "
+            "`::`-prefixed paths and every relative suffix of the full path from every position (same namespace, sibling, nested, "
+            "root, method body, nested block, namespace-level `static PATH g;`), declarations before / after a homonym, and (1 in 10) "
+            "a use that must not resolve; every declaration carries its id as a constant and every use its ordinal, so both emitted "
+            "texts say which entity each use refers to; oracle = the emitted text is accepted and the second text is byte-identical; "
+            "the harness's own scope simulation of the exported program (rebuilt from the printed text) names the class of a failure "
+            "that is an emitted relative path meeting a closer homonym (known findings names:relative-path-captured/..) - any other "
+            "failure is a violation with the descriptor as input",
     "level_text": "Proof by composition, machine-checked for expressions. (1) reelab_no_new_casts: for every expression of the C03 "
                   "elaboration model (all operators, ?:, comma, casts, calls through overload resolution; scalar / vector / matrix / "
                   "modified types; induction over all source expressions, debug and release builds) every syntax tree the front end "
@@ -279,7 +299,25 @@ SPEC = {
                   "i32::MIN gets its value back through generate_literal, parse_literal, sign folding, re-tagging). (4) "
                   "slots_stable_reread: the allocator re-run (default group 0) on the declarations whose bind group is re-read character "
                   "by character from the printed register(..) annotations (C05's reader) reproduces every group, index, register class "
-                  "and inline block, for all declaration sequences. The legs' property theorems (C10 literals, C09 round trip, C15 "
+                  "and inline block, for all declaration sequences. (5) Names of qualified symbols: the hypothesis of (3) about "
+                  "names is stated on the scope table of the exported program - PathsResolveBack: find_identifier, started in the scope "
+                  "of the use with the relative identifier scoped_name_to_identifier builds from the full path, returns the entity the "
+                  "path was printed for; namesAgree_of_pathsResolveBack / fixpoint_expr_paths feed it into the composition. "
+                  "Model.FixpointNames mirrors ScopeData, walk_into_scopes (with its assertions), find_identifier_in_scope and the "
+                  "outward walk of find_identifier that retries the whole path from every enclosing scope. "
+                  "emitted_path_resolves_of_no_closer_match: in every well-formed table (all tables the descriptor machine builds are: "
+                  "machine_tables_wf, proved by invariant over all instruction lists) a path that denotes its entity from the root and "
+                  "that no scope between the use and the root resolves is looked up to that entity - any depth, any path length; "
+                  "emitted_path_resolves_to_same_entity: without a homonymous inner scope (nothing between use and root declares the "
+                  "first name of the path) this holds for the code's discipline and for the stop-at-the-first-qualifier discipline of "
+                  "seeded mutant C04-3 alike; mutant_discipline_loses_emitted_path: with App::Util next to ::Util the code's lookup "
+                  "finds ::Util::twice through the emitted `Util::twice` and the mutant's reports an unknown identifier (negation "
+                  "witness, the program is in the corpus); emitted_path_captured_witness: with a closer full match the code's lookup "
+                  "returns the closer entity, PathsResolveBack is false (the 12 known capture classes, cross-referenced to C15's "
+                  "relative-path-resolves-elsewhere). path_lookup_as_modelled pins the bodies of find_identifier, walk_into_scopes, "
+                  "scoped_name_to_identifier, the start scope per base, the emitted base and the stage / arm structure of "
+                  "find_identifier_in_scope to the re-extracted Gen.PathLookup; the C04.names stream compares the model's lookups "
+                  "(positive and negative, both generations) with the real compiler. The legs' property theorems (C10 literals, C09 round trip, C15 "
                   "names) and their Gen tables are obligations of C04. Partial: structural statements, declarations, structs, "
                   "templates, intrinsic calls and the text leg of trees with casts are not in a Lean composition theorem; they are "
                   "exercised by the whole-program fixpoint run and the re-elaboration stream.",
@@ -298,11 +336,23 @@ SPEC = {
         "tools/gens/c04.py (FixpointTables: parse_literal, the to_literal test of the Cast arm, the literal shortcut of apply)",
         "the C04.reelab correspondence run: the model's prediction of the second-generation IR skeleton vs the real front end on the "
         "real emitted text",
+        "Model/FixpointNames.lean (scope table, walkInto / findInScope / find, the descriptor machine exec = symbol insertion of "
+        "enter_namespace / insert_global / insert_function_in_scope / begin_struct / begin_enum / register_enum_value / register_typedef "
+        "/ insert_variable, exportInstrs = the program the second generation sees) - tied by path_lookup_as_modelled "
+        "(tools/gens/c04.py PathLookup) and by the C04.names correspondence run; the reading of entity ids out of the emitted "
+        "text (harness/src/c04/names.rs scan) is trusted for that run",
     ],
     "assumptions": [
         "Rust's shortest round-trip float formatting and correctly rounded parsing (f64 Display / FromStr)",
         "name hygiene (C15 verbatim / never_reserved / injective_per_scope) enters fixpoint_expr as the hypotheses NamesAgree and "
         "Renamed; literal exactness (C10) as the hypothesis that the second generation's constants are the first's",
+        "PathsResolveBack (qualified names resolve back) is a hypothesis of fixpoint_expr_paths; it is a theorem only for uses "
+        "without a closer full match (NoCloserMatch / NoInnerHomonym) and is false on the current code when a closer homonym "
+        "exists (known findings names:relative-path-captured/..); DenotesFromRoot (the full path denotes the entity from the "
+        "root: unique names per scope in the output) is C15's injective_per_scope",
+        "the names model has no overload sets with more than one function, no templates, no cbuffers and no struct-qualified "
+        "paths (the code has none either: walk_into_scopes enters namespaces and enums only); those are exercised by the "
+        "free-form sources of the corpus / search list through the whole-program oracle",
         "the print / parse round trip of exported trees that contain casts is assumed (ParsesBack): C09's model has no cast node",
         "in the second generation no pipeline is selected (default bind group 0), as in the property's observation point",
     ],
